@@ -827,8 +827,61 @@ def xs_float_arithmetic(tier, seed):
             'rule': 'distinct = (operator, operand types)'}
 
 
+def derived_integer_types(tier, seed):
+    """Operands of the types derived from xs:integer: F&O 4.2 / 4.4 - the operators and the rounding functions return a value of the base numeric type
+    (xs:integer), never of the derived type, and the value is the one of the integer arithmetic (no wrap-around at the bounds of the derived type)."""
+    from fractions import Fraction as Fr
+    types = {'byte': (-128, 127), 'short': (-32768, 32767), 'unsignedByte': (0, 255), 'unsignedLong': (0, 2 ** 64 - 1), 'nonPositiveInteger': (None, 0),
+             'positiveInteger': (1, None), 'long': (-2 ** 63, 2 ** 63 - 1), 'int': (-2 ** 31, 2 ** 31 - 1)}
+    fails, n, seen = {}, 0, set()
+
+    def bad(k, **w):
+        fails.setdefault(k, []).append(w)
+    unary = {'abs({x})': abs, 'floor({x})': lambda v: v, 'ceiling({x})': lambda v: v, 'round({x})': lambda v: v, 'round-half-to-even({x})': lambda v: v, '-{x}': lambda v: -v,
+             '+{x}': lambda v: v, 'round({x}, 0)': lambda v: v, 'round({x}, 2)': lambda v: v, 'round-half-to-even({x}, 1)': lambda v: v, 'round({x}, -1)': None}
+    binary = {'{x} + {y}': lambda a, b: a + b, '{x} - {y}': lambda a, b: a - b, '{x} * {y}': lambda a, b: a * b, '{x} idiv {y}': lambda a, b: int(Fr(a, b)) if b else None,
+              '{x} mod {y}': lambda a, b: a - b * int(Fr(a, b)) if b else None}
+    for tn, (lo, hi) in types.items():
+        vals = [v for v in (lo, hi, 0, 1, -1, 5, -5) if v is not None and (lo is None or v >= lo) and (hi is None or v <= hi)]
+        for v in dict.fromkeys(vals):
+            x = f"xs:{tn}('{v}')"
+            for tmpl, py in unary.items():
+                for version in ('2.0', '3.1'):
+                    if version == '2.0' and tmpl.startswith('round(') and ',' in tmpl:
+                        continue
+                    n += 1
+                    seen.add((tn, tmpl))
+                    e = tmpl.format(x=x)
+                    got = eval_native(version, f'for $r in {e} return ($r, $r instance of xs:integer, $r instance of xs:{tn} and not(xs:{tn}("{v}") instance of xs:integer and "{tn}" = "integer"))')
+                    if got[0] != 'return' or not isinstance(got[1], list) or len(got[1]) != 3:
+                        bad(f'{tmpl.format(x="xs:T(v)")} on a derived integer type raises or returns no single value', type=tn, expr=e, version=version, got=repr(got)[:80])
+                        continue
+                    r, is_int, is_derived = got[1]
+                    if type(r) is not int or not is_int or is_derived:
+                        bad(f'{tmpl.format(x="xs:T(v)")} on a derived integer type does not return an xs:integer', type=tn, expr=e, version=version, got=f'{type(r).__name__} {r!r}')
+                    elif py is not None and r != py(v):
+                        bad(f'{tmpl.format(x="xs:T(v)")} on a derived integer type: value', type=tn, expr=e, version=version, got=r, expected=py(v))
+            for tmpl, py in binary.items():
+                for w in dict.fromkeys(vals):
+                    n += 1
+                    seen.add((tn, tmpl))
+                    e = tmpl.format(x=x, y=f"xs:{tn}('{w}')")
+                    want = py(v, w)
+                    got = eval_native('3.1', f'for $r in {e} return ($r, $r instance of xs:{tn} and not("{tn}" = "integer"))')
+                    if want is None:
+                        if not (got[0] == 'raise' and str(getattr(got[1], 'code', '')).endswith('FOAR0001')):
+                            bad(f'{tmpl.format(x="a", y="b")} by zero on a derived integer type is not FOAR0001', type=tn, expr=e, got=repr(got)[:80])
+                        continue
+                    if got[0] != 'return' or not isinstance(got[1], list) or got[1][0] != want or type(got[1][0]) is not int or got[1][1]:
+                        bad(f'{tmpl.format(x="a", y="b")} on derived integer types: the exact xs:integer result', type=tn, expr=e, got=repr(got)[:80], expected=want)
+    fl = [{'key': k, 'items': it[:4], 'count': len(it), 'what': f'{k}: e.g. {it[0]}'} for k, it in fails.items()]
+    return {'evaluations': n, 'distinct': len(seen), 'failures': fl, 'n_failures': len(fl),
+            'scope': f'{len(types)} types derived from xs:integer x their bounds and small values x 11 unary operators / rounding functions (XPath 2.0 and 3.1) and 5 binary operators on all '
+                     'pairs: the result is an xs:integer (not the derived type) with the exact value, no wrap-around at the bounds', 'rule': 'distinct = (type, operator)'}
+
+
 BOUNDED = [Bounded('big_number_rounding', big_rounding), Bounded('double_arithmetic_vs_rational', double_arithmetic),
-           Bounded('xs_float_types_and_special_values', xs_float_arithmetic)]
+           Bounded('xs_float_types_and_special_values', xs_float_arithmetic), Bounded('derived_integer_operands', derived_integer_types)]
 
 NOT_DECIDED = [
     'IEEE 754 results of finite double/float arithmetic (computed inside CPython/libm): special-value tables are proved, '
